@@ -725,6 +725,9 @@ func (st *State) resolveSpecType(name string, env *specEnv) (types.Type, Sort) {
 			return o.Type(), te.SortOf(o.Type())
 		}
 	}
+	if strings.HasPrefix(name, "(Array ") {
+		return nil, Sort(name)
+	}
 	if strings.HasPrefix(name, "(") || strings.HasPrefix(name, "BV") {
 		var n int
 		if _, err := fmt.Sscanf(name, "BV%d", &n); err == nil {
@@ -901,6 +904,19 @@ func (st *State) specCall(e *SExpr, env *specEnv) Value {
 				cs = append(cs, eq(now.Term, was.Term))
 			}
 			return Value{T: boolT, S: SBool, Term: and(cs...)}
+		case "store":
+			// store(a, k, v) on spec-level arrays (ghost maps)
+			a := st.evalSpec(args[0], env)
+			if !strings.HasPrefix(string(a.S), "(Array ") {
+				env.fail("store on non-array %s", a.S)
+			}
+			parts := splitTop(string(a.S)[7 : len(a.S)-1])
+			k := st.coerceTo(st.evalSpec(args[1], env), Sort(parts[0]), env)
+			v := st.evalSpec(args[2], env)
+			if v.Untyped != nil || v.S == "nil" {
+				v = st.coerceTo(v, Sort(parts[1]), env)
+			}
+			return Value{S: a.S, Term: app("store", a.Term, k.Term, v.Term)}
 		case "ite":
 			c := st.evalSpec(args[0], env)
 			a := st.evalSpec(args[1], env)
@@ -1035,6 +1051,22 @@ func (st *State) evalLocs(e *SExpr, env *specEnv) (out []modEntry) {
 			}
 		}
 		return ents
+	}
+	if e.Kind == KCall && e.Args[0].Kind == KIdent && e.Args[0].Name == "all" && len(e.Args) == 2 && e.Args[1].Kind == KSel {
+		// all(T.f): field f of every object of struct type T
+		T, _ := st.resolveSpecType(e.Args[1].Args[0].String(), env)
+		stt, ok := T.Underlying().(*types.Struct)
+		if !ok {
+			env.fail("all(%s): not a struct type", e.Args[1])
+		}
+		for i := 0; i < stt.NumFields(); i++ {
+			if stt.Field(i).Name() == e.Args[1].Name {
+				fa := st.eng.fsub("(mkref 0)", T, i)
+				parts := splitTop(fa[5 : len(fa)-1])
+				return []modEntry{{kind: "fieldall", name: parts[1], T: stt.Field(i).Type()}}
+			}
+		}
+		env.fail("all(%s): no such field", e.Args[1])
 	}
 	switch e.Kind {
 	case KIdent:
